@@ -171,6 +171,15 @@ func genC19(r *rand.Rand, thorough bool) *c19Input {
 		mode = 0
 	}
 	t := GenTable(r, in.NCols, n, in.PK, mode)
+	if len(in.PK) == 0 && r.Intn(2) == 0 {
+		// keyless: the whole row is the key. A tiny alphabet with the empty cell makes rows tie on every
+		// column but the last, across spilled runs
+		for _, row := range t.Rows {
+			for c := range row {
+				row[c] = []string{"", "a", "b", "a"}[r.Intn(4)]
+			}
+		}
+	}
 	if r.Intn(3) == 0 && len(t.Rows) > 0 {
 		// duplicate some rows' keys (different content) at random places, incl. across block/chunk edges
 		k := 1 + r.Intn(5)
